@@ -127,9 +127,21 @@ def code_to_spec(ctx, arm, ncases):
         except ValueError:
             err = True
         same = bool(np.array_equal(data, d0, equal_nan=True) and np.array_equal(phi, p0, equal_nan=True))
+        # default arguments: sim_mean defaults to 0 for the simulation and to the mean of the inputs for the residuals,
+        # sim_ini defaults to sim_mean (relations between recorded calls, compared bit for bit)
+        defaults_ok = True
+        if not err and n > 0 and not np.all(np.isnan(data)):
+            try:
+                if fn == "sim":
+                    defaults_ok = bool(np.array_equal(arm.armodel_sim(phi, data), arm.armodel_sim(phi, data, 0.0, 0.0), equal_nan=True))
+                else:
+                    mu = float(np.nanmean(data))
+                    defaults_ok = bool(np.array_equal(arm.armodel_residual(phi, data), arm.armodel_residual(phi, data, mu, mu), equal_nan=True))
+            except ValueError:
+                defaults_ok = False
         rec = {"fn": fn, "c": [int(x) for x in c], "m": m, "ini": ini, "sc": sc, "nanparam": bool(nanparam),
                "data": [NAN if np.isnan(v) else int(v) for v in data], "err": err, "out": out, "inv": inv,
-               "argsame": same, "default_ini": not kw}
+               "argsame": same, "default_ini": not kw, "defaults_ok": defaults_ok}
         recs.append(rec)
         ctx.count(rec, (not err) and n >= 2)
     path = ctx.workfile("ar_trace.ndjson")
